@@ -48,3 +48,12 @@ def assert_repo(*mods):
     for m in mods:
         f = getattr(m, "__file__", "") or ""
         assert f.startswith("/repo/"), f"{m.__name__} loaded from {f}, not /repo"
+
+
+def real(x):
+    """concrete copy of a (possibly symbolic) value: the solver picks the value and the choice
+    becomes a branch of the path tree (so all values inside the bound are still explored)"""
+    if not tracing():
+        return x
+    from crosshair.core import deep_realize
+    return deep_realize(x)
